@@ -34,21 +34,45 @@ def strip_comments(t):
     return t
 
 
+# theorem modules per property (lean/RxVerif/Theorems/<name>.lean)
+MODULES = {
+    "C01": ["C01"], "C02": ["C02a", "C02b"], "C03": ["C03"], "C04": ["C04k"], "C05": ["C05"], "C06": ["C06"], "C07": ["C07"],
+    "C08": ["C08"], "C09": ["C09"], "C10": ["C10"], "C11": ["C11"], "C12": ["C12"], "C13": ["C13"], "C14": ["C14"],
+    "C15": ["C15"], "C16": ["C16"], "C17": ["C17"], "C18": ["C18"], "C19": ["C19"],
+}
+
+
+def theorem_names(path):
+    """fully qualified names of the theorems declared in a file (tracks namespace / end)"""
+    src = strip_comments(open(path).read())
+    ns = []
+    out = []
+    for line in src.split("\n"):
+        m = re.match(r"\s*namespace\s+(\S+)", line)
+        if m:
+            ns.append(m.group(1)); continue
+        m = re.match(r"\s*end\s+(\S+)\s*$", line)
+        if m and ns and ns[-1] == m.group(1):
+            ns.pop(); continue
+        m = re.match(r"\s*(?:private\s+|protected\s+)?theorem\s+([^\s:({\[]+)", line)
+        if m and not re.match(r"\s*private", line):
+            name = m.group(1)
+            out.append(name if name.startswith("_root_.") else ".".join(ns + [name]))
+    return out
+
+
 def check(prop, tier):
     r = ProofResult()
-    mod = "RxVerif.Theorems." + prop
-    path = os.path.join(run.LEAN, "RxVerif", "Theorems", prop + ".lean")
-    r.checker_cmd = "cd lean && lake build %s && lake env lean <generated #print axioms audit>" % mod
-    if not os.path.exists(path):
+    mods = [m for m in MODULES.get(prop, [prop]) if os.path.exists(os.path.join(run.LEAN, "RxVerif", "Theorems", m + ".lean"))]
+    r.checker_cmd = "cd lean && lake build %s && lake env lean <generated #print axioms audit>" % " ".join("RxVerif.Theorems." + m for m in mods)
+    if not mods:
         r.ok = False
-        r.error = "no theorem module " + path
+        r.error = "no theorem module for " + prop
         return r
-    src = strip_comments(open(path).read())
-    names = re.findall(r"^\s*theorem\s+([^\s:({\[]+)", src, flags=re.M)
-    ns = re.findall(r"^\s*namespace\s+(\S+)", src, flags=re.M)
-    prefix = ".".join(ns) + "." if ns else ""
-    r.obligations = len(names)
-    r.theorems = [prefix + n for n in names]
+    r.theorems = []
+    for m in mods:
+        r.theorems += theorem_names(os.path.join(run.LEAN, "RxVerif", "Theorems", m + ".lean"))
+    r.obligations = len(r.theorems)
     # forbidden tokens anywhere in the Lean sources
     for f in glob.glob(os.path.join(run.LEAN, "**", "*.lean"), recursive=True):
         if ".lake" in f:
@@ -59,15 +83,16 @@ def check(prop, tier):
                 r.ok = False
                 r.error = "forbidden token %s in %s" % (pat, os.path.relpath(f, run.LEAN))
                 return r
+    fq = ["RxVerif.Theorems." + m for m in mods]
     try:
-        run.build_lean([mod])
+        run.build_lean(fq)
     except run.BuildError as e:
         r.ok = False
-        r.error = "theorem module %s no longer builds: %s" % (mod, e.log[-1500:])
+        r.error = "theorem modules %s no longer build: %s" % (fq, e.log[-1500:])
         return r
     os.makedirs(run.BUILD, exist_ok=True)
     audit = os.path.join(run.BUILD, "audit_%s.lean" % prop)
-    open(audit, "w").write("import %s\n" % mod + "".join("#print axioms %s\n" % n for n in r.theorems))
+    open(audit, "w").write("".join("import %s\n" % m for m in fq) + "".join("#print axioms %s\n" % n for n in r.theorems))
     rc, out = run.sh(["lake", "env", "lean", audit], cwd=run.LEAN)
     if rc != 0:
         r.ok = False
@@ -75,17 +100,18 @@ def check(prop, tier):
         return r
     used = set()
     ok_count = 0
+    flat = out.replace("\n", " ")
     for n in r.theorems:
-        m = re.search(r"'%s' depends on axioms: \[(.*?)\]" % re.escape(n), out, flags=re.S)
+        m = re.search(r"'%s' depends on axioms: \[(.*?)\]" % re.escape(n), flat)
         if m:
-            ax = {a.strip() for a in m.group(1).replace("\n", " ").split(",") if a.strip()}
+            ax = {a.strip() for a in m.group(1).split(",") if a.strip()}
             used |= ax
             if ax <= WHITELIST:
                 ok_count += 1
             else:
                 r.ok = False
                 r.error = "theorem %s depends on axioms %s" % (n, sorted(ax - WHITELIST))
-        elif re.search(r"'%s' does not depend on any axioms" % re.escape(n), out):
+        elif re.search(r"'%s' does not depend on any axioms" % re.escape(n), flat):
             ok_count += 1
         else:
             r.ok = False
@@ -93,9 +119,10 @@ def check(prop, tier):
     r.axioms = sorted(used)
     r.discharged = ok_count
     if tier == "thorough" and r.ok:
-        rc, out = run.sh(["lake", "env", "leanchecker", mod], cwd=run.LEAN, timeout=3600)
-        r.checker_cmd += " && lake env leanchecker " + mod
-        if rc != 0:
-            r.ok = False
-            r.error = "leanchecker rejected %s: %s" % (mod, out[-1500:])
+        for m in fq:
+            rc, out = run.sh(["lake", "env", "leanchecker", m], cwd=run.LEAN, timeout=3600)
+            if rc != 0:
+                r.ok = False
+                r.error = "leanchecker rejected %s: %s" % (m, out[-1500:])
+        r.checker_cmd += " && lake env leanchecker <each module>"
     return r
